@@ -131,9 +131,12 @@ def bop_variants(bop):
             continue
         attrs = re.findall(r'#\[[^\]]*\]', part)
         name = re.sub(r'#\[[^\]]*\]', '', part).strip()
-        if not re.match(r'^\w+$', name):
+        mm = re.match(r'^(\w+)(\s*=\s*[\w_]+)?$', name)
+        if not mm:
             raise ExtractError('enum BytecodeOp: variant %r is not a plain tag' % part[:40])
+        # an explicit discriminant is kept in the rendered enum (it decides `as u8`), the public table still numbers by position
         declared.append(name)
+        name = mm.group(1)
         if not any('strum' in a_ and 'disabled' in a_ for a_ in attrs):
             public.append(name)
     return declared, public
@@ -204,6 +207,59 @@ def gen_specs(vs, bv):
             return 'Some(%s)' % rs[q] if q < len(rs) else 'None'
         A('/// register operand %d of an operation, if it has one' % q)
         A('pub open spec fn r%d(op: RegOp) -> Option<u8> {\n    match op {\n' % q + arms(rq) + '\n    }\n}')
+    # ---- the reader's side: a decoder written from the format documentation, and the round trip
+    names = {}
+    for v, t in vs:
+        names.setdefault(op_name(v, t), []).append((v, t))
+    D = []
+    for name in bv:
+        k = bv.index(name)
+        group = dict(names.get(name, []))
+        def has(vv):
+            return vv in group
+        if name in ('Input', 'Output'):
+            body = 'Some(RegOp::%s(b1, imm))' % name
+        elif name == 'Mem':
+            body = 'if b2 == 0xFFu8 { Some(RegOp::Load(b1, imm)) } else { Some(RegOp::Store(b2, imm)) }'
+        elif name == 'Copy':
+            body = 'if b2 == 0xFFu8 { Some(RegOp::CopyImm(b1, f32_of_bits(imm))) } else { Some(RegOp::CopyReg(b1, b2)) }'
+        elif has(name + 'Reg') and len(group) == 1:
+            body = 'Some(RegOp::%sReg(b1, b2))' % name
+        else:
+            base = 'Atan' if name == 'Atan2' else name
+            ri = 'Some(RegOp::%sRegImm(b1, b2, f32_of_bits(imm)))' % base if has(base + 'RegImm') else 'None'
+            ir = 'Some(RegOp::%sImmReg(b1, b3, f32_of_bits(imm)))' % base if has(base + 'ImmReg') else 'None'
+            rr = 'Some(RegOp::%sRegReg(b1, b2, b3))' % base if has(base + 'RegReg') else 'None'
+            if not has(base + 'RegReg'):
+                raise ExtractError('decoder: operation %s has no register-register form' % name)
+            body = 'if b3 == 0xFFu8 { %s } else if b2 == 0xFFu8 { %s } else { %s }' % (ri, ir, rr)
+        D.append('    %sif o == %du8 { %s }' % ('' if not D else 'else ', k, body))
+    A('pub uninterp spec fn f32_of_bits(b: u32) -> f32;')
+    A('/// AX-bits: `f32::from_bits(x.to_bits())` is `x` (bitwise identity, NaN payloads included)')
+    A('pub proof fn ax_bits() ensures forall|x: f32| #[trigger] f32_of_bits(f32_bits(x)) == x { admit(); }')
+    A('/// what a reader that follows only the format documentation makes of two words: opcode from the public table, byte 1 the output\n/// register, bytes 2 and 3 the inputs, 0xFF = the second word is the immediate, Mem with the flag in byte 2 = load, else store')
+    A('pub open spec fn dec(w: Seq<u8>, imm: u32) -> Option<RegOp> {\n    let o = w[0]; let b1 = w[1]; let b2 = w[2]; let b3 = w[3];\n' + '\n'.join(D) + '\n    else { None }\n}')
+
+    def ren(v, t):
+        args = []
+        for i, ty in enumerate(t):
+            if ty == 'u8':
+                args.append('m[a%d]' % i)
+            elif v in ('Load', 'Store') and ty == 'u32':
+                args.append('(a%d - n) as u32' % i)
+            else:
+                args.append('a%d' % i)
+        return 'RegOp::%s(%s)' % (v, ', '.join(args))
+    A('/// the operation with its registers renamed and its memory slot made relative to the first memory slot')
+    A('pub open spec fn ren(op: RegOp, m: Map<u8, u8>, n: int) -> RegOp {\n    match op {\n' + arms(ren) + '\n    }\n}')
+    A("""/// the format is unambiguous: from the two words of an operation the reader recovers exactly that operation (renamed) - this is where
+/// "no instruction uses the reserved register" is needed: a register byte 0xFF would be read as the immediate flag
+pub proof fn lemma_decode_encode(op: RegOp, m: Map<u8, u8>, n: int)
+    requires no_reserved(op, m)
+    ensures dec(enc_word(op, m), enc_imm(op, n)) == Some(ren(op, m, n))
+{
+    ax_bits();
+}""")
     return '\n'.join(L)
 
 
@@ -306,5 +362,6 @@ def build(repo, trace):
     obls = [Obligation('bytecode::Bytecode::new', 'bytecode', 'Bytecode::new', props=PROPS, rlimit=200),
             Obligation('bytecode::store_reg (closure of Bytecode::new, lifted)', 'bytecode', 'store_reg_', props=PROPS),
             Obligation('bytecode::<BytecodeOp as From<RegOp>>::from', 'bytecode', 'BytecodeOp::from', props=PROPS),
-            Obligation('bytecode::lemma_opc', 'bytecode', 'lemma_opc', props=PROPS, kind='lemma')]
+            Obligation('bytecode::lemma_opc', 'bytecode', 'lemma_opc', props=PROPS, kind='lemma'),
+            Obligation('bytecode::lemma_decode_encode', 'bytecode', 'lemma_decode_encode', props=PROPS, kind='lemma')]
     return {'texts': {'base': inj.s}, 'obligations': obls, 'canary_fns': ['Bytecode::new', 'store_reg_']}
